@@ -13,6 +13,8 @@ package reader
 //@ ghost var outChannel seq[string]
 //@ ghost var outTask seq[string]
 //@ ghost var outCollection seq[int64]
+// the output stream (ts manager channel key = replicate id + "." + downstream physical channel) a pack was enqueued on
+//@ ghost var outKey seq[string]
 //@ changhost tsInfo.targetMsgChan out
 //@ changhost replicateChannelHandler.apiEventChan events
 
@@ -60,7 +62,7 @@ package reader
 // timestamps are TSO hybrid timestamps (physical ms * 2^18 + logical), far below 2^62: shifting never wraps
 //@   assumes hpCts(r) < 4611686018427387904 && tsoBounded(pack)
 //@   splitposts
-//@   private tsInfo.* tsManager.* umaps(string;*tsInfo) replicateChannelHandler.replicateID replicateChannelHandler.targetPChannel out outChannel outTask outCollection api.ReplicateMsg.* removedColl
+//@   private tsInfo.* tsManager.* umaps(string;*tsInfo) replicateChannelHandler.replicateID replicateChannelHandler.targetPChannel out outChannel outTask outCollection outKey api.ReplicateMsg.* removedColl
 //@   ensures [envelopes-that-existed-before-the-call-are-untouched] preservedStruct(api.ReplicateMsg)
 //@   ensures [the-last-tick-never-decreases] hpLts(r) >= old(hpLts(r))
 //@   ensures [the-clock-never-goes-back] hpCts(r) >= old(hpCts(r))
@@ -76,7 +78,7 @@ package reader
 //@   loop 3 invariant hpLts(r) <= hpCts(r) && hpCts(r) < 4611686018427387904
 //@   loop 4 invariant hpInv(r)
 //@   loop 5 invariant hpInv(r)
-//@   modifies * except out outChannel outTask outCollection
+//@   modifies * except out outChannel outTask outCollection outKey
 
 //@ func FormatChanKey
 //@   props C06 C01 C03
@@ -92,20 +94,21 @@ package reader
 //@   panics never
 
 //@ func (*tsManager).SendTargetMsg
-//@   props C06 C01
+//@   props C06 C01 C02
 //@   requires m != nil && m.channelTS2 != nil && m.channelTSLocks != nil
 //@   ensures [enqueued-once] len(out) == old(len(out)) + 1 && out[old(len(out))] == msg
 //@   ensures forall i int :: 0 <= i && i < old(len(out)) ==> out[i] == old(out[i])
 //@   ghostset return outChannel := outChannel ++ [msg.PChannelName]
 //@   ghostset return outTask := outTask ++ [msg.TaskID]
 //@   ghostset return outCollection := outCollection ++ [msg.CollectionID]
-//@   ensures [labels-recorded-at-enqueue] outChannel == old(outChannel) ++ [msg.PChannelName] && outTask == old(outTask) ++ [msg.TaskID] && outCollection == old(outCollection) ++ [msg.CollectionID]
-//@   modifies out, outChannel, outTask, outCollection
+//@   ghostset return outKey := outKey ++ [channelName]
+//@   ensures [labels-recorded-at-enqueue] outChannel == old(outChannel) ++ [msg.PChannelName] && outTask == old(outTask) ++ [msg.TaskID] && outCollection == old(outCollection) ++ [msg.CollectionID] && outKey == old(outKey) ++ [channelName]
+//@   modifies out, outChannel, outTask, outCollection, outKey
 //@   unreachable return@1
 
 // ---- C06 / C01: hand-over of one pack from a stream to the downstream output ----------------------
 //@ func (*replicateChannelHandler).innerHandleReplicateMsg
-//@   props C06 C01
+//@   props C06 C01 C02
 //@   requires r != nil && msg != nil
 // packs delivered by a stream are never nil (guarantee of the stream creator / dispatcher client)
 //@   assumes msg.MsgPack != nil
@@ -113,6 +116,7 @@ package reader
 //@   ensures [labelled-with-its-stream] len(out) == old(len(out)) + 1 ==> out[old(len(out))].TaskID == msg.TaskID && out[old(len(out))].CollectionID == msg.CollectionID && out[old(len(out))].CollectionName == msg.CollectionName && out[old(len(out))].PChannelName == msg.PChannelName
 //@   ensures forall i int :: 0 <= i && i < old(len(out)) ==> out[i] == old(out[i])
 //@   ensures [the-enqueued-pack-names-the-streams-channel-collection-and-task] (len(out) == old(len(out)) ==> outChannel == old(outChannel) && outTask == old(outTask) && outCollection == old(outCollection)) && (len(out) == old(len(out)) + 1 ==> outChannel == old(outChannel) ++ [old(msg.PChannelName)] && outTask == old(outTask) ++ [old(msg.TaskID)] && outCollection == old(outCollection) ++ [old(msg.CollectionID)])
+//@   ensures [the-pack-goes-to-the-output-stream-of-the-handlers-downstream-channel] len(out) == old(len(out)) + 1 ==> outKey == old(outKey) ++ [r.replicateID + "." + r.targetPChannel]
 //@   panics never
 
 // ---- C06: the error event names the owning task -------------------------------------------------------
@@ -344,3 +348,30 @@ package reader
 //@   loop 1 invariant len(outChannel) >= old(len(outChannel)) && len(outTask) == len(outChannel) && len(outCollection) == len(outChannel)
 //@   loop 1 invariant forall i int :: {outChannel[i]} old(len(outChannel)) <= i && i < len(outChannel) ==> outChannel[i] == old(deref(sourceInfo).PChannel) && outCollection[i] == old(deref(collectionID)) && outTask[i] == old(deref(taskID))
 //@   loop 1 invariant deref(sourceInfo) == old(deref(sourceInfo)) && deref(collectionID) == old(deref(collectionID)) && deref(taskID) == old(deref(taskID)) && deref(targetInfo) == old(deref(targetInfo)) && preservedFields(model.SourceCollectionInfo.PChannel)
+
+// ---- C02: source and downstream virtual channels are paired one-to-one in sorted order ---------------------------
+// pairSrc / pairTgt: the (source, target) pairs the callback of ForeachChannel was called with, in call order.
+//@ ghost var pairSrc seq[string]
+//@ ghost var pairTgt seq[string]
+//@ func ForeachChannel
+//@   props C02
+//@   requires len(pairSrc) == len(pairTgt)
+//@   funcparam f(sourcePChannel, targetPChannel)
+//@   funcparam f ensures pairSrc == old(pairSrc) ++ [sourcePChannel] && pairTgt == old(pairTgt) ++ [targetPChannel]
+//@   funcparam f modifies * except arrays(string)
+//@   ensures [unequal-channel-counts-pair-nothing] old(len(sourcePChannels)) != old(len(targetPChannels)) ==> result != nil && pairSrc == old(pairSrc) && pairTgt == old(pairTgt)
+//@   ensures [every-channel-is-paired-exactly-once-unless-the-callback-fails] result == nil ==> len(pairSrc) == old(len(pairSrc)) + old(len(sourcePChannels)) && len(pairTgt) == len(pairSrc)
+//@   ensures [pairs-are-formed-in-sorted-order-on-both-sides] forall i int, j int :: {pairSrc[i], pairSrc[j]} old(len(pairSrc)) <= i && i <= j && j < len(pairSrc) ==> pairSrc[i] <= pairSrc[j] && pairTgt[i] <= pairTgt[j]
+//@   ensures [the-input-slices-are-left-as-they-were] forall i int :: {sourcePChannels[i]} 0 <= i && i < len(sourcePChannels) ==> sourcePChannels[i] == old(sourcePChannels[i])
+//@   loop 1 invariant len(pairSrc) == old(len(pairSrc)) + rangeindex + 1 && len(pairTgt) == len(pairSrc) && freshRef2(sources) && freshRef2(targets) && len(sources) == old(len(sourcePChannels)) && len(targets) == len(sources) && preservedArrays(string)
+//@   loop 1 invariant forall i int :: {pairSrc[i]} old(len(pairSrc)) <= i && i < len(pairSrc) ==> pairSrc[i] == sources[i - old(len(pairSrc))] && pairTgt[i] == targets[i - old(len(pairSrc))]
+//@   loop 1 invariant forall i int, j int :: {sources[i], sources[j]} 0 <= i && i <= j && j < len(sources) ==> sources[i] <= sources[j] && targets[i] <= targets[j]
+
+// the downstream virtual channel of a physical channel: the first listed virtual channel whose name contains it
+//@ func GetVChannelByPChannel
+//@   props C02
+//@   ensures [a-listed-virtual-channel-that-contains-the-physical-name-or-nothing] result == "" || (exists i int :: 0 <= i && i < len(vChannels) && result == vChannels[i] && contains(vChannels[i], pChannel))
+//@   ensures [nothing-only-if-no-listed-channel-contains-it] result == "" && pChannel != "" ==> (forall i int :: {vChannels[i]} 0 <= i && i < len(vChannels) ==> !contains(vChannels[i], pChannel))
+//@   modifies nothing
+//@   panics never
+//@   loop 1 invariant forall i int :: {vChannels[i]} 0 <= i && i <= rangeindex ==> !contains(vChannels[i], pChannel)
